@@ -4,6 +4,7 @@
 #include <string>
 
 #include "plan.h"
+#include "world.h"
 
 namespace sim
 {
@@ -19,6 +20,8 @@ struct Outcome
 
 // executes in a forked child; classifies crashes from exit status and the child's stderr
 Outcome runIsolated(const Plan& plan, int timeoutSec = 60);
+// the same, returning the whole RunResult (probes, hashes, counters); a crash becomes a violation of the plan's property
+RunResult runForkedFull(const Plan& plan, int timeoutSec = 120);
 
 struct ShrinkStats
 {
